@@ -884,6 +884,165 @@ theorem litsOk_any (p : Prog) : p.litsOk anyScalar = true := by
   | super p k ihp ihk => simp [Prog.litsOk, ihp, ihk]
   | block b k ihb ihk => simp [Prog.litsOk, ihb, ihk]
 
+/-! ### sequencing -/
+
+/-- what "then run `f`" means for an outcome -/
+def thenRun (r : Except Err St) (f : St → Except Err St) : Except Err St :=
+  match r with
+  | .ok st => f st
+  | .error e => .error e
+
+theorem compCall_then (A D K Q : St → Except Err St) (params : List String) (st1 : St)
+    (bv : Option TVal) :
+    compCall A D (fun s => thenRun (K s) Q) params st1 bv = thenRun (compCall A D K params st1 bv) Q := by
+  unfold compCall
+  cases A st1 with
+  | error e => rfl
+  | ok st2 =>
+    simp only
+    cases popN params.length st2.stack with
+    | none => rfl
+    | some pr =>
+      obtain ⟨vals, s⟩ := pr
+      simp only
+      cases D { vars := params.zip vals ++ bodyCtx bv } with
+      | error e => rfl
+      | ok st3 => rfl
+
+theorem run_append (env : Env) (p q : Prog) :
+    ∀ (ae : Bool) (st : St), run env ae (p.append q) st = thenRun (run env ae p st) (run env ae q) := by
+  induction p with
+  | done => intro ae st; simp [Prog.append, run, thenRun]
+  | op i k ih =>
+    intro ae st
+    simp only [Prog.append, run]
+    cases step env ae i st with
+    | error e => rfl
+    | ok st' => exact ih ae st'
+  | forEach v b k _ ihk =>
+    intro ae st
+    simp only [Prog.append, run]
+    cases st.stack with
+    | nil => rfl
+    | cons x s =>
+      simp only
+      cases iterElems x with
+      | none => rfl
+      | some xs =>
+        simp only
+        cases loopElems (run env ae b) v xs { st with stack := s } with
+        | error e => rfl
+        | ok st' => exact ihk ae st'
+  | comp hb b a ps d k _ _ _ ihk =>
+    intro ae st
+    have hk : run env ae (k.append q) = fun s => thenRun (run env ae k s) (run env ae q) :=
+      funext (ihk ae)
+    simp only [Prog.append]
+    unfold run
+    rw [hk]
+    cases hb with
+    | false => exact compCall_then _ _ _ _ _ _ _
+    | true =>
+      simp only
+      cases run env ae b { st with caps := [] :: st.caps } with
+      | error e => rfl
+      | ok st1 =>
+        simp only
+        cases st1.caps with
+        | nil => rfl
+        | cons c cs => exact compCall_then _ _ _ _ _ _ _
+  | incl tae t k _ ihk =>
+    intro ae st
+    simp only [Prog.append, run]
+    cases run env (env.override.getD tae) t { parent := st.vars ++ st.parent } with
+    | error e => rfl
+    | ok r => exact ihk ae _
+  | super par k _ ihk =>
+    intro ae st
+    simp only [Prog.append, run]
+    cases run env ae par { st with caps := [], out := [] } with
+    | error e => rfl
+    | ok r => exact ihk ae _
+  | block b k _ ihk =>
+    intro ae st
+    simp only [Prog.append, run]
+    cases run env ae b st with
+    | error e => rfl
+    | ok st' => exact ihk ae st'
+
+theorem clean_append (ov : Option Bool) (p q : Prog) :
+    (p.append q).clean ov = (p.clean ov && q.clean ov) := by
+  induction p with
+  | done => simp [Prog.append, Prog.clean]
+  | op i k ih => simp [Prog.append, Prog.clean, ih, Bool.and_assoc]
+  | forEach v b k _ ih => simp [Prog.append, Prog.clean, ih, Bool.and_assoc]
+  | comp hb b a ps d k _ _ _ ih => simp [Prog.append, Prog.clean, ih, Bool.and_assoc]
+  | incl ae t k _ ih => simp [Prog.append, Prog.clean, ih, Bool.and_assoc]
+  | super par k _ ih => simp [Prog.append, Prog.clean, ih, Bool.and_assoc]
+  | block b k _ ih => simp [Prog.append, Prog.clean, ih, Bool.and_assoc]
+
+/-! ### the API override vs template flags -/
+
+theorem step_override (e : List Nat → List Nat) (o1 o2 : Option Bool) (ae : Bool) (i : Instr) (st : St) :
+    step { escape := e, override := o1 } ae i st = step { escape := e, override := o2 } ae i st := rfl
+
+/-- With the override `some f` in force, or with no override but every included template flagged
+`f`, a VM in mode `f` does the same. -/
+theorem run_override (e : List Nat → List Nat) (f : Bool) (p : Prog) (h : p.inclAll f = true) :
+    ∀ st, run { escape := e, override := some f } f p st = run { escape := e, override := Option.none } f p st := by
+  induction p with
+  | done => intro st; rfl
+  | op i k ih =>
+    intro st
+    simp only [Prog.inclAll] at h
+    simp only [run, step_override e (some f) Option.none]
+    cases step { escape := e, override := Option.none } f i st with
+    | error _ => rfl
+    | ok st' => exact ih h st'
+  | forEach v b k ihb ihk =>
+    intro st
+    simp only [Prog.inclAll, Bool.and_eq_true] at h
+    simp only [run, funext (ihb h.1)]
+    cases st.stack with
+    | nil => rfl
+    | cons x s =>
+      simp only
+      cases iterElems x with
+      | none => rfl
+      | some xs =>
+        simp only
+        cases loopElems (run { escape := e, override := Option.none } f b) v xs { st with stack := s } with
+        | error _ => rfl
+        | ok st' => exact ihk h.2 st'
+  | comp hb b a ps d k ihb iha ihd ihk =>
+    intro st
+    simp only [Prog.inclAll, Bool.and_eq_true] at h
+    unfold run
+    rw [funext (iha h.1.1.2), funext (ihd h.1.2), funext (ihk h.2), ihb h.1.1.1]
+  | incl tae t k iht ihk =>
+    intro st
+    simp only [Prog.inclAll, Bool.and_eq_true, beq_iff_eq] at h
+    obtain ⟨⟨hf, ht⟩, hk⟩ := h
+    subst hf
+    simp only [run, Option.getD_some, Option.getD_none, iht ht]
+    cases run { escape := e, override := Option.none } tae t { parent := st.vars ++ st.parent } with
+    | error _ => rfl
+    | ok r => exact ihk hk _
+  | super par k ihp ihk =>
+    intro st
+    simp only [Prog.inclAll, Bool.and_eq_true] at h
+    simp only [run, ihp h.1]
+    cases run { escape := e, override := Option.none } f par { st with caps := [], out := [] } with
+    | error _ => rfl
+    | ok r => exact ihk h.2 _
+  | block b k ihb ihk =>
+    intro st
+    simp only [Prog.inclAll, Bool.and_eq_true] at h
+    simp only [run, ihb h.1]
+    cases run { escape := e, override := Option.none } f b st with
+    | error _ => rfl
+    | ok st' => exact ihk h.2 st'
+
 theorem erase_tagAll (t : Tag) (bs : List Nat) : erase (tagAll t bs) = bs := by
   induction bs with
   | nil => rfl
